@@ -166,6 +166,81 @@ pub fn eval_case(c: &Case) -> String {
     }
 }
 
+fn fmt_sched(s: opening_hours::schedule::Schedule) -> String {
+    format!("{:?}", s.into_iter().map(|r| (r.range, r.kind, r.comments)).collect::<Vec<_>>())
+}
+
+/// Values derived from ONE parsed expression (`clone()` + `with_context`) share the expression;
+/// evaluating them alternately on the same day must give what independently parsed values give
+/// (a memo keyed on the shared expression but not on the context would be reused here).
+fn shared_expression_probe(c: &Case, rep: &mut Report, seed: u64) {
+    let day = c.t.date();
+    // 1. holiday calendars and the interval-size bound
+    let text = format!("{}; PH off; SH unknown \"shared\"", c.text);
+    let Ok(Ok(base)) = guarded(|| OpeningHours::parse(&text)) else { return };
+    let specs = [HolSpec::None, HolSpec::Synthetic("dense".into()), HolSpec::Country("FR".into()), HolSpec::Synthetic("runs".into())];
+    let expected: Vec<(String, String)> = specs
+        .iter()
+        .map(|spec| {
+            let (text, spec, t) = (text.clone(), spec.clone(), c.t);
+            std::thread::spawn(move || {
+                crate::out::install_quiet_panic_hook();
+                let oh = OpeningHours::parse(&text).unwrap().with_context(spec.context());
+                guarded(|| (fmt_sched(oh.schedule_at(t.date())), oh.state(t).to_string())).unwrap_or_else(|p| (format!("PANIC {p}"), String::new()))
+            })
+            .join()
+            .unwrap_or_else(|_| ("PANIC".into(), String::new()))
+        })
+        .collect();
+    let shared: Vec<stream::Oh> = specs.iter().map(|spec| base.clone().with_context(spec.context())).collect();
+    let bounded: stream::Oh = base.clone().with_context(specs[1].context().approx_bound_interval_size(Duration::days(2)));
+    let mut r = Rng::new(seed, 0x5a2ed, c.id as u64);
+    for _ in 0..6 {
+        let i = r.below(specs.len() as u64) as usize;
+        let got = guarded(|| (fmt_sched(shared[i].schedule_at(day)), shared[i].state(c.t).to_string())).unwrap_or_else(|p| (format!("PANIC {p}"), String::new()));
+        rep.count("shared_expression_probes");
+        rep.evaluations += 1;
+        if got != expected[i] {
+            rep.violation("result_depends_on_history", format!("{text:?} at {}: a value sharing its parsed expression with values of other contexts (clone + with_context), evaluated alternately with them, gives with context [{}]:\n  got      {got:?}\n  expected {:?} (independently parsed value, fresh thread)", c.t, specs[i].to_string(), expected[i]), json!({"seed": seed, "case": c.id, "expr": text}), None);
+            return;
+        }
+        if i == 1 {
+            let got_b = guarded(|| fmt_sched(bounded.schedule_at(day))).unwrap_or_else(|p| format!("PANIC {p}"));
+            if got_b != expected[1].0 {
+                rep.violation("result_depends_on_history", format!("{text:?} at {}: the same value with an interval-size bound gives another daily schedule: {got_b} vs {}", c.t, expected[1].0), json!({"seed": seed, "case": c.id, "expr": text}), None);
+                return;
+            }
+        }
+    }
+    // 2. places (sun events): two coordinate-inferred contexts sharing the expression
+    let text = format!("{}, (sunrise-00:20)-(sunset+00:20) unknown", c.text);
+    let Ok(Ok(base)) = guarded(|| OpeningHours::parse(&text)) else { return };
+    let sites = [SITES[c.id % SITES.len()], SITES[(c.id + 3) % SITES.len()]];
+    let expected: Vec<String> = sites
+        .iter()
+        .map(|s| {
+            let (text, s) = (text.clone(), *s);
+            std::thread::spawn(move || {
+                crate::out::install_quiet_panic_hook();
+                let oh = OpeningHours::parse(&text).unwrap().with_context(Context::from_coords(Coordinates::new(s.0, s.1).unwrap()));
+                guarded(|| fmt_sched(oh.schedule_at(day))).unwrap_or_else(|p| format!("PANIC {p}"))
+            })
+            .join()
+            .unwrap_or_else(|_| "PANIC".into())
+        })
+        .collect();
+    let shared: Vec<_> = sites.iter().map(|s| base.clone().with_context(Context::from_coords(Coordinates::new(s.0, s.1).unwrap()))).collect();
+    for k in 0..4 {
+        let i = k % 2;
+        let got = guarded(|| fmt_sched(shared[i].schedule_at(day))).unwrap_or_else(|p| format!("PANIC {p}"));
+        rep.count("shared_expression_probes");
+        if got != expected[i] {
+            rep.violation("result_depends_on_history", format!("{text:?} on {day}: a value sharing its parsed expression with a value of another place, evaluated alternately, gives at {:?}:\n  got      {got}\n  expected {}", sites[i], expected[i]), json!({"seed": seed, "case": c.id, "expr": text}), None);
+            return;
+        }
+    }
+}
+
 fn extra<'a>(args: &'a Args, key: &str) -> Option<&'a str> {
     args.extra.iter().find_map(|e| e.strip_prefix(&format!("{key}=")))
 }
@@ -217,6 +292,7 @@ pub fn reference(args: &Args, rep: &mut Report, n: usize, allow_tz: bool) -> Vec
                 break;
             }
         }
+        shared_expression_probe(c, rep, args.seed);
         let c2 = c.clone();
         let fresh = std::thread::spawn(move || {
             crate::out::install_quiet_panic_hook();
